@@ -109,9 +109,26 @@ Theorem C17_fixed_satisfies_P : forall body st k m c,
 Proof. exact fixed_satisfies_P. Qed.
 Print Assumptions C17_fixed_satisfies_P.
 
-Theorem C17_P_call_spec : forall c x o, P_call c x o = true <-> P_prop c x o.
+Theorem C17_P_call_spec : forall cm c x o, P_call_cm cm c x o = true <-> P_prop cm c x o.
 Proof. exact P_call_spec. Qed.
 Print Assumptions C17_P_call_spec.
+
+(** addresses as (party, spelling): a registration that is accepted - whoever the listed admin accounts are and
+    however they are spelled - leaves every existing reservation record as it was, and so does its withdrawal *)
+Theorem C17_reservations_untouched : forall c admins r r' k v,
+  register_res false c admins r = Some r' -> rget k r = Some v ->
+  rget k r' = Some v /\ rget k (free_res false admins r') = Some v.
+Proof. exact reservations_untouched. Qed.
+Print Assumptions C17_reservations_untouched.
+
+Theorem C17_reservations_canon_refuted :
+  let r := [({| ac_who := 7; ac_sp := 0 |}, "governanceAdmin")]%N in
+  let admins := [{| ac_who := 1; ac_sp := 0 |}; {| ac_who := 7; ac_sp := 1 |}]%N in
+  exists r', register_res true 1 admins r = Some r' /\
+             rget {| ac_who := 7; ac_sp := 0 |} r' = Some "appchainAdmin" /\
+             rget {| ac_who := 7; ac_sp := 0 |} (free_res true admins r') = None.
+Proof. exact reservations_canon_refuted. Qed.
+Print Assumptions C17_reservations_canon_refuted.
 
 (** refutations on the faithful model *)
 Theorem C17_stub_promoted_refuted :
